@@ -19,6 +19,7 @@ import (
 	"strconv"
 	"strings"
 	"sync"
+	"syscall"
 	"testing"
 )
 
@@ -262,6 +263,11 @@ func Flush() {
 
 // Main is the TestMain body of every property package.
 func Main(m *testing.M) {
+	if mb, err := strconv.ParseUint(os.Getenv("VERIF_AS_LIMIT_MB"), 10, 64); err == nil && mb > 0 {
+		// an allocation bomb must end this child, not the machine
+		lim := syscall.Rlimit{Cur: mb << 20, Max: mb << 20}
+		_ = syscall.Setrlimit(syscall.RLIMIT_AS, &lim)
+	}
 	code := m.Run()
 	Flush()
 	os.Exit(code)
